@@ -65,6 +65,8 @@ class Profile:
         self.min_calls = 0
         self.loop_weight = 1
         self.if_weight = 2
+        self.lead_reloc = 0.04         # the program starts with @= instead of *=
+        self.pos_expr = 0.35           # *= / @= targets inside macro bodies and loops that depend on a parameter / the loop variable
         for k, v in kw.items():
             if not hasattr(self, k):
                 raise AttributeError(k)
@@ -168,6 +170,34 @@ class ProgGen:
             off = rng.randint(r.win_lo, r.win_hi)
         return (bank << 16) | off
 
+    def position(self, gs: GS, a: int, prob=None):
+        """the target of a *= / @=: mostly the literal address; inside macro bodies and loops sometimes an
+        expression over a parameter / the loop variable, so that every expansion moves somewhere else"""
+        rng = self.rng
+        names = []
+        s_ = gs
+        while s_ is not None:
+            if s_.loopvar:
+                names.append(s_.loopvar[0])
+            if s_.kind == "macro":
+                names += s_.params
+                break
+            s_ = s_.parent
+        if not names or rng.random() >= (self.p.pos_expr if prob is None else prob):
+            return a
+        r = self.bus.range_of(a)
+        if r is None:
+            return a
+        hi = 0xFFFF if r.ram else r.win_hi
+        lo = 0 if r.ram else r.win_lo
+        step = rng.choice([1, 3, 4, 0x10])
+        span = 0x3F * step + 0x40
+        if (a & 0xFFFF) + span > hi:
+            a -= span + rng.randint(0, 0x40)
+        if (a & 0xFFFF) < lo:
+            return a + span
+        return ["bin", "+", ["lit", a, "x"], ["bin", "*", ["bin", "&", ["id", rng.choice(names)], ["lit", 0x3F, "x"]], ["lit", step, "d"]]]
+
     def ram_address(self) -> int:
         rng = self.rng
         if self.usermap:
@@ -202,6 +232,11 @@ class ProgGen:
             ks += ["org"] * p.org_weight
         if (p.reloc_rom or p.reloc_ram) and not in_macro and not in_loop:
             ks += ["reloc"]
+        if p.orgs and p.pos_expr and (in_macro or in_loop):
+            # moves inside bodies that are expanded several times (mostly to a target that depends on the expansion)
+            ks += ["org"]
+            if p.reloc_rom:
+                ks += ["reloc_rom"]
         if depth < p.max_depth:
             if p.blocks:
                 ks += ["block"] * p.block_weight
@@ -515,7 +550,7 @@ class ProgGen:
                 # the emitted length differ from the number of characters written
                 parts = []
                 for _ in range(rng.randint(1, 8)):
-                    parts.append(rng.choice(["a", "b", "ab", "the ", "~", "Z", "?", " ", "[0x7f]", "[0x1]", "abc", "x"]))
+                    parts.append(rng.choice(["a", "b", "ab", "the ", "~", "Z", "?", " ", "[0x7f]", "[0x1]", "abc", "x", "\u00e9", "\u00df\u00e9", "\u6f22", "\u00fc"]))
                 out.append({"k": "text", "s": "".join(parts)})
             elif k == "incbin":
                 self.n_file += 1
@@ -538,11 +573,13 @@ class ProgGen:
                     out.append({"k": "const", "n": name, "e": self.value_expr(gs, params=gs.kind == "macro"), "eager": False})
                     gs.eq.append(name)
             elif k == "org":
-                out.append({"k": "org", "a": self.rom_address()})
+                out.append({"k": "org", "a": self.position(gs, self.rom_address(), 0.85)})
                 self.in_ram = False
+            elif k == "reloc_rom":
+                out.append({"k": "reloc", "a": self.position(gs, self.rom_address(), 0.85)})
             elif k == "reloc":
                 ram = self.p.reloc_ram and (not self.p.reloc_rom or rng.random() < 0.5)
-                out.append({"k": "reloc", "a": self.ram_address() if ram else self.rom_address()})
+                out.append({"k": "reloc", "a": self.position(gs, self.ram_address() if ram else self.rom_address())})
                 self.in_ram = ram
             elif k == "block":
                 out.append({"k": "block", "b": self.fill(node["b"], node["gs"], depth + 1)})
@@ -651,11 +688,15 @@ class ProgGen:
                 ncalls += 1
         ir = list(head)
         if self.p.text:
-            self.files["t0.tbl"] = "01=a\n02=b\n03=ab\n10=the \nF0F1=~\n0405=abc\n20= \n"
+            self.files["t0.tbl"] = "01=a\n02=b\n03=ab\n10=the \nF0F1=~\n0405=abc\n20= \n30=\u00e9\n3132=\u00df\u00e9\n33=\u6f22\n"
             ir.append({"k": "table", "f": "t0.tbl"})
         if self.usermap:
             ir = [{"k": "map", "spec": sp} for sp in self.usermap] + ir
-        ir.append({"k": "org", "a": self.rom_address()})
+        if self.p.lead_reloc and self.rng.random() < self.p.lead_reloc:
+            # no *= at the start: the program only says where its code runs
+            ir.append({"k": "reloc", "a": self.rom_address()})
+        else:
+            ir.append({"k": "org", "a": self.rom_address()})
         # macro definitions come first (they must precede their applications); bodies are filled with the
         # root's planned names visible
         for m in macro_plans:
@@ -685,7 +726,7 @@ def random_usermap(rng):
     ident = 1
     for _ in range(rng.randint(1, 3)):
         length = rng.choice([4, 8, 16, 32])
-        win = rng.choice(["hi32", "full64"])
+        win = rng.choice(["hi32", "hi32", "full64", "full64", "half64"])
         mirror = rng.random() < 0.5
         need = length * (2 if mirror else 1) + 3
         if cursor + need > 250:
